@@ -287,6 +287,8 @@ def run(ctx):
                   "no lock-order cycle (or same-class nested acquisition) involves code reachable from the command worker, the only completer of acknowledgements",
                   detail=("cycle %s" % " -> ".join(bad_cycle) if bad_cycle else "") + (" self %s" % bad_self[:2] if bad_self else ""))
 
+    from core import no_try_locks
+    no_try_locks(ctx, "R12.9", {"AS", "AW"}, "a status that is not written or a waker that is not registered / woken leaves the awaiting caller pending")
     # ---- queued pairs always carry a fresh (pending) acknowledgement -----------------------------
     n_pairs = 0
     for name, f in F.fns.items():
